@@ -160,8 +160,8 @@ func runC18(r *Report) {
 		idiomAfter := false
 		for _, b := range slotFn.Blocks {
 			for _, in := range b.Instrs {
-				if bo, ok := in.(*ssa.BinOp); ok && bo.Op == token.EQL {
-					if k, isc := ConstInt(bo.Y); isc {
+				if bo, ok := in.(*ssa.BinOp); ok && (bo.Op == token.EQL || bo.Op == token.NEQ) {
+					if k, isc := ConstInt(bo.Y); isc { // `key[i] == '{'` with break, or `for ... && key[i] != '{'`
 						braces[k]++
 					}
 				}
